@@ -11,6 +11,10 @@ def run(ctx):
         "order, and under two other PYTHONHASHSEEDs (subset); TLC (Check_Chain.V06) decides; non-trivial = >1 chromosome or >3 elements"
     )
     cfgs = ["BubbleChain_q.cfg", "BubbleChain_q2.cfg", "BubbleChain_long.cfg"] if not ctx.thorough else ["BubbleChain_t.cfg", "BubbleChain_q2.cfg", "BubbleChain_t3.cfg", "BubbleChain_long.cfg"]
+    # design check: the per-chromosome loop as a machine (OrderChrom / SkipChrom) satisfies C06 and C18 on every generated graph and order
+    r = ctx.tlc("OrderRun", "OrderRun_q.cfg", coverage=False)
+    if not r.ok:
+        ctx.design_violation("OrderRun", "OrderRun_q.cfg", r)
     jobs = sessions(ctx, cfgs, "C06", lambda k: {"hashseeds": [1, 2]} if k % (6 if ctx.thorough else 12) == 0 else {})
     finish(ctx, jobs, "C06")
     ctx.exhaustive = True
